@@ -22,6 +22,7 @@ from snaxc.accelerators.acc_context import AccContext
 from snaxc.dialects.dart import StreamingRegionOpBase
 from snaxc.dialects.pipeline import IndexOp, PipelineOp, StageOp, YieldOp
 from snaxc.dialects.snax import ClusterSyncOp
+from snaxc.transforms.insert_sync_barrier import get_view_source
 from snaxc.util.dispatching_rules import dispatch_to_compute, dispatch_to_dm
 
 
@@ -130,6 +131,16 @@ class ConstructPipeline(RewritePattern):
                 for operand in operation.operands:
                     if not isinstance(operand.type, MemRefType) and op.body.block.is_ancestor(operand.owner):
                         return
+
+        # buffers are told apart by their SSA value: two different values that name the same memory (views or casts
+        # of one allocation, taken outside of the loop) would not be double buffered together
+        sources: dict[SSAValue, SSAValue] = {}
+        for stage in stages:
+            for operation in stage:
+                for operand in operation.operands:
+                    if isinstance(operand.type, MemRefType) and not op.body.block.is_ancestor(operand.owner):
+                        if sources.setdefault(get_view_source(operand), operand) is not operand:
+                            return
 
         # the unrolled pipeline is only correct for loops with lb 0 and step 1, that
         # run for at least (nb_stages - 1) iterations to fill up the pipeline
